@@ -16,7 +16,9 @@ P, C, G, S, T = rs2lean.PMMR, rs2lean.CONS, rs2lean.GLOB, rs2lean.SEG, rs2lean.T
 PT, SI, BM = rs2lean.POWT, rs2lean.SIP, rs2lean.BMACC
 MODS = ["GrinVerif.Props.XlatePmmr", "GrinVerif.Props.XlateCons", "GrinVerif.Props.XlateSeg", "GrinVerif.Props.XlateTx",
         "GrinVerif.Props.XlatePmmr2", "GrinVerif.Props.XlateDiff", "GrinVerif.Props.XlatePow",
-        "GrinVerif.Props.XlatePack", "GrinVerif.Props.XlateMisc"]
+        "GrinVerif.Props.XlatePack", "GrinVerif.Props.XlateMisc", "GrinVerif.Props.XlateTxFee",
+        "GrinVerif.Props.XlateSipnode"]
+MODS = [m for m in MODS if m.split(".")[-1] not in os.environ.get("XLATE_MUT_SKIP", "").split(",")]
 MUTS = [
  ("M01 shift off by one: peak_size >>= 1 -> >>= 2 (peak_map_height)", P, "\t\tpeak_size >>= 1;\n\t}\n\t(peak_map, size)", "\t\tpeak_size >>= 2;\n\t}\n\t(peak_map, size)"),
  ("M02 >= -> > in peak_map_height", P, "\t\tpeak_map <<= 1;\n\t\tif size >= peak_size {", "\t\tpeak_map <<= 1;\n\t\tif size > peak_size {"),
@@ -72,6 +74,12 @@ MUTS = [
  ("N29 pmmr_size: 1 << height -> 2 << height", S, "num_segments as u64 * (1 << height)", "num_segments as u64 * (2 << height)"),
  ("N30 old_weight_by_iok: 4 -> 3", T, "\t\t\t.saturating_mul(4)", "\t\t\t.saturating_mul(3)"),
  ("N31 cut_through_horizon: testing arms swapped", G, "ChainTypes::AutomatedTesting => AUTOMATED_TESTING_CUT_THROUGH_HORIZON,\n\t\tChainTypes::UserTesting => USER_TESTING_CUT_THROUGH_HORIZON,", "ChainTypes::AutomatedTesting => USER_TESTING_CUT_THROUGH_HORIZON,\n\t\tChainTypes::UserTesting => AUTOMATED_TESTING_CUT_THROUGH_HORIZON,"),
+ ("N33 TransactionBody::fee: saturating_add -> wrapping_add", T, "acc.saturating_add(fee_fields.fee())", "acc.wrapping_add(fee_fields.fee())"),
+ ("N34 TransactionBody::fee_shift: max -> min", T, "max(acc, fee_fields.fee_shift())", "min(acc, fee_fields.fee_shift())"),
+ ("N35 verify_weight: `>` -> `>=`", T, "if self.weight() > max_weight {", "if self.weight() >= max_weight {"),
+ ("N36 verify_weight: AsBlock limit -> max_tx_weight", T, "Weighting::AsBlock => global::max_block_weight(),", "Weighting::AsBlock => global::max_tx_weight(),"),
+ ("N37 lock_height: unwrap_or(0) -> unwrap_or(1)", T, "\t\t\t.max()\n\t\t\t.unwrap_or(0)", "\t\t\t.max()\n\t\t\t.unwrap_or(1)"),
+ ("N38 sipnode: 2 * edge + uorv -> edge + uorv", rs2lean.POWC, "siphash24(&self.siphash_keys, 2 * edge + uorv)", "siphash24(&self.siphash_keys, edge + uorv)"),
  ("N32 unsupported construct introduced: ar_count uses a string", C, "\t100 * diff_data.iter().filter(", "\tlet _s = \"x\";\n\t100 * diff_data.iter().filter("),
  # benign changes: must NOT break anything
  ("NB1 benign: closure parameters renamed in ar_count / secondary_pow_scaling, comment added", C, "\t100 * diff_data.iter().filter(|n| n.is_secondary).count() as u64", "\t// count\n\t100 * diff_data\n\t\t.iter()\n\t\t.filter(|hdr| hdr.is_secondary)\n\t\t.count() as u64"),
